@@ -2,9 +2,13 @@ import Clikit.Drv.Util
 import Clikit.Model.Run
 import Clikit.Model.RunListeners
 import Clikit.Model.Wiring
+import Clikit.Model.CommandTree
 /-! Driver entries of the run model: `c04.run` (listeners given in calling order) and `c04.run_regs`
 (listeners given as a registration history with priorities and event names; ordered through the
-dispatcher model, `RunListeners.runWithDispatcher`). -/
+dispatcher model, `RunListeners.runWithDispatcher`).  Both take the optional field `sel`
+(`{"tree": sub-command configs of the top-level command as nested arrays, "path": positions}`): the command
+the line selects is the one at `path` of the tree `Command.__init__` builds (`Model/CommandTree.lean`), and
+the listeners of the run are the ones THAT command consults. -/
 namespace Clikit.Drv.C04
 open Lean Clikit.Drv Clikit.Run
 
@@ -55,6 +59,29 @@ def storedOf (j : Json) (h : Outcome) : R (Option Stored) :=
 def regOf (j : Json) : R RunListeners.Registration := do
   return { ev := ← fNat j "event", prio := ← fInt j "prio", l := ← listenerOf (← field j "listener") }
 
+/-- the sub-command configs of a command config, as nested arrays (`[]`: no sub-commands) -/
+def cfgOf : Nat → Json → R CommandTree.Cfg
+  | 0, _ => .error "sel.tree: nested too deeply"
+  | n + 1, .arr a => do return .node (← a.toList.mapM (cfgOf n))
+  | _, _ => .error "sel.tree: array expected"
+
+/-- the application object of the run: its identity and the identity of its dispatcher -/
+def theApp : CommandTree.App := ⟨0, 1⟩
+
+/-- what the SELECTED command consults of `xs` (the listeners / registrations on the application's dispatcher);
+without the field `sel` the top-level command of a tree without sub-commands is selected -/
+def consultedOf {α : Type} (j : Json) (xs : List α) : R (List α) :=
+  match fOpt j "sel" with
+  | none => pure xs
+  | some s => do
+    let tree ← cfgOf 16 (← field s "tree")
+    let path ← (← fArr s "path").toList.mapM (fun (x : Json) => match x.getNat? with
+      | .ok n => pure n
+      | .error _ => Except.error "sel.path: natural numbers expected")
+    match CommandTree.consultedAt theApp tree path xs with
+    | some l => pure l
+    | none => .error "sel: the path names no command of the tree"
+
 def jExc (e : Exc) : Json :=
   Json.mkObj [("ki", .bool e.keyboardInterrupt), ("clikit", .bool e.clikit), ("tag", jNat e.tag)]
 
@@ -65,7 +92,7 @@ def handle (m : String) (j : Json) : Option (R Json) :=
       let resolved : Except Exc Unit ← match fOpt j "resolve_error" with
         | none => pure (.ok ())
         | some e => do pure (.error (← excOf e))
-      let ls ← (← fArr j "listeners").toList.mapM listenerOf
+      let ls ← consultedOf j (← (← fArr j "listeners").toList.mapM listenerOf)
       let h ← outcomeOf (← field j "handler")
       let renderOk ← fBool j "render_ok"
       let r := match ← storedOf j h with
@@ -78,7 +105,7 @@ def handle (m : String) (j : Json) : Option (R Json) :=
       let resolved : Except Exc Unit ← match fOpt j "resolve_error" with
         | none => pure (.ok ())
         | some e => do pure (.error (← excOf e))
-      let regs ← (← fArr j "regs").toList.mapM regOf
+      let regs ← consultedOf j (← (← fArr j "regs").toList.mapM regOf)
       let h ← outcomeOf (← field j "handler")
       let renderOk ← fBool j "render_ok"
       let r := match ← storedOf j h with
